@@ -229,14 +229,20 @@ fn law_jobs(seed: u64) -> Vec<Job> {
         for k in 1..=n {
             // variant 2: every judged draw is preceded, on the same thread, by a tournament of the same
             // size over another population of n + 5 individuals (the law of the judged draw is unchanged)
-            for variant in 0..3u64 {
+            // variant 3: the same with a *smaller* other population (n - 1 or n - 2 individuals), which is also the
+            // first one the selector value ever sees
+            for variant in 0..4u64 {
                 if variant == 1 && (n < 3 || (n + k) % 2 == 0) {
                     continue;
                 }
                 if variant == 2 && (n < 3 || (n + k) % 3 != 0) {
                     continue;
                 }
-                let alternating = variant == 2;
+                if variant == 3 && (n < 3 || (n + k) % 2 == 1) {
+                    continue;
+                }
+                let alternating = variant >= 2;
+                let other_n = if variant == 3 { n - 1 - (k % 2).min(n - 2) } else { n + 5 };
                 cfg += 1;
                 let keys: Vec<i64> = (0..n)
                     .map(|i| {
@@ -248,7 +254,7 @@ fn law_jobs(seed: u64) -> Vec<Job> {
                         }
                     })
                     .collect();
-                let name = format!("Tournament({k}) over keys {keys:?}{}", if alternating { ", alternating with a population of another size" } else { "" });
+                let name = format!("Tournament({k}) over keys {keys:?}{}", if alternating { format!(", alternating with a population of {other_n}") } else { String::new() });
                 let keys2 = keys.clone();
                 jobs.push(Job {
                     name: name.clone(),
@@ -260,7 +266,7 @@ fn law_jobs(seed: u64) -> Vec<Job> {
                         let mut winner_key: BTreeMap<i64, u64> = BTreeMap::new();
                         let mut winner_id = vec![0u64; n];
                         let mut oversampled = 0u64;
-                        let other_pop = pop_of(&(0..(n + 5) as i64).collect::<Vec<_>>());
+                        let other_pop = pop_of(&(0..other_n as i64).collect::<Vec<_>>());
                         let (mut prev_key, mut same_pairs) = (None::<i64>, 0u64);
                         for trial in 0..trials {
                             if alternating {
@@ -358,7 +364,20 @@ fn large_law_jobs(seed: u64) -> Vec<Job> {
                 let mut pair_adj = vec![0u64; n];
                 let mut pair_far = vec![0u64; n];
                 let mut rank_wins = vec![0u64; n];
+                // every second configuration: the selector value has first been used on a smaller population (and in
+                // every fourth keeps being used on it in alternation); nothing of that may show in the judged draws
+                let smaller = pop_of(&(0..(n * 2 / 3).max(1) as i64).collect::<Vec<_>>());
+                if ci % 2 == 1 {
+                    for _ in 0..3 {
+                        let _ = t.select(&smaller, &mut rng).map(|w| w.id).ok();
+                        take_compared();
+                    }
+                }
                 for _ in 0..trials {
+                    if ci % 4 == 3 {
+                        let _ = t.select(&smaller, &mut rng).map(|w| w.id).ok();
+                        take_compared();
+                    }
                     let (id, s) = draw(&t, &pop, k, &mut rng)?;
                     rank_wins[ranks[id as usize]] += 1;
                     if s.len() == k {
